@@ -329,8 +329,22 @@ FUNCS = {'exp': 'exp', 'sin': 'sin', 'cos': 'cos', 'sinh': 'sinh', 'cosh': 'cosh
          'rect': 'rect', 'tri': 'tri', 'ramp': 'ramp', 'rampstep': 'rstep'}
 
 
-def reify_factor(f, names):
-    """-> symbolic leaf: [tag, ...] with sympy constants"""
+def split_const(g, var):
+    """integrand -> (constant free of t and of the integration variable, the rest): the model of factor_const(integrand, var)
+    for the integrands of the supported class (constant * named function(s))"""
+    k = sp.S.One
+    rest = []
+    for x in g.as_ordered_factors():
+        if x.has(var) or x.has(tsym):
+            rest.append(x)
+        else:
+            k = k * x
+    return k, (rest[0] if len(rest) == 1 else sp.Mul(*rest))
+
+
+def reify_factor(f, names, kout=None):
+    """-> symbolic leaf: [tag, ...] with sympy constants; kout collects the constant factors found INSIDE an integral
+    (const2 of LaplaceTransformer.integral), which the caller folds into the coefficient of the monomial"""
     if f == tsym:
         return ['powt', 1]
     if f.is_Pow and f.args[0] == tsym and f.args[1].is_Integer and int(f.args[1]) >= 2:
@@ -367,10 +381,20 @@ def reify_factor(f, names):
             raise Unreifiable('integral ' + str(f)[:40])
         var, lo, hi = f.args[1]
         g = f.args[0]
-        if isinstance(g, AppliedUndef) and g.args == (var,) and hi == tsym and lo in (0, -sp.oo):
+        if kout is not None:
+            k2, g = split_const(g, var)
+            if k2 != 1:
+                kout.append(k2)
+        # int_{lo}^{t} v(tau) dtau with lo <= 0 (the named functions are causal, so every lo <= 0 is the running integral)
+        if isinstance(g, AppliedUndef) and g.args == (var,) and hi == tsym and (lo in (0, -sp.oo) or (lo.is_Rational and lo.is_negative)):
             nm = g.func.__name__
             names.setdefault(nm, len(names))
             return ['integ', names[nm]]
+        # int_0^oo v(t - tau) dtau: the first branch of LaplaceTransformer.integral (goes through self.term(v(t)))
+        if (isinstance(g, AppliedUndef) and len(g.args) == 1 and g.args[0] == tsym - var and lo == 0 and hi == sp.oo):
+            nm = g.func.__name__
+            names.setdefault(nm, len(names))
+            return ['integA', names[nm]]
         if g.is_Mul and len(g.args) == 2 and all(isinstance(x, AppliedUndef) and len(x.args) == 1 for x in g.args):
             x, y = g.args
             if x.args[0] == var and sp.expand(y.args[0] - (tsym - var)) == 0:
@@ -403,7 +427,10 @@ def reify(x, names):
             if not f.has(tsym):
                 c = c * f
             else:
-                fs.append(reify_factor(f, names))
+                kk = []
+                fs.append(reify_factor(f, names, kk))
+                for k2 in kk:
+                    c = c * k2
         polys = [f for f in fs if f[0] == 'poly']
         if len(polys) > 1:
             prod = sp.Poly(1, tsym)
@@ -490,7 +517,7 @@ class Oracle:
             if x <= 0:
                 return mp.mpf(0)
             return mp.diff(lambda y: y ** 4 * mp.exp(-(2 + v) * y), x, k)
-        if tag == 'integ':
+        if tag in ('integ', 'integA'):
             v = f[1]
             if x <= 0:
                 return mp.mpf(0)
@@ -556,7 +583,7 @@ class Oracle:
             T = -b / a
             if T < 0:
                 return mp.mpc(0)
-            for p in self.breaks(rest) + ([mp.mpf(0)] if any(f[0] in ('u', 'ramp', 'rect', 'tri', 'rstep', 'undef', 'deriv', 'integ') for f in rest) else []):
+            for p in self.breaks(rest) + ([mp.mpf(0)] if any(f[0] in ('u', 'ramp', 'rect', 'tri', 'rstep', 'undef', 'deriv', 'integ', 'integA') for f in rest) else []):
                 if abs(p - T) < mp.mpf(10) ** -20:
                     raise Uneval('oracle: impulse on a discontinuity')
             h = lambda x: g(x) * mp.exp(-s * x)
